@@ -101,6 +101,25 @@ def scenarios(tier):
             mk([[f'a.{ext}', c]], f'a.{ext}', None, {f'a.{ext}': e}, f'single/{size}')
             if size in (0, 2):
                 mk([[f'a.{ext}', c]], f'a.{ext}', f'a.{ext}', {f'a.{ext}': e}, f'single-out-same/{size}')
+        # 1b. out NAMES the in file without being spelled like it: symbolic link, hard link,
+        #     '..' / '.' spellings -> must be edited in place (is_same_file); and a symbolic link
+        #     to ANOTHER file -> not in place, the link's target gets the output
+        c, e = content(step, 2)
+        cb, _ = content(step, 1, variant=3)
+        bad_c, _ = content(step, 2, 1) if step != 'filereplace' else (c, None)
+        for label, links, vout, exp in (
+                ('alias/symlink', [[f'lnk.{ext}', f'a.{ext}', 'sym']], f'lnk.{ext}', e),
+                ('alias/symlink-in-subdir', [[f'sub/lnk.{ext}', f'a.{ext}', 'sym']], f'sub/lnk.{ext}', e),
+                ('alias/hardlink', [[f'hard.{ext}', f'a.{ext}', 'hard']], f'hard.{ext}', e),
+                ('alias/dotdot', [], f'sub/../a.{ext}', e),
+                ('alias/dot', [], f'./a.{ext}', e),
+                ('alias/symlink-to-other-file', [[f'lnkb.{ext}', f'b.{ext}', 'sym']], f'lnkb.{ext}', None)):
+            mk([[f'a.{ext}', c], [f'b.{ext}', cb], ['sub/', '']], f'a.{ext}', vout,
+               {f'a.{ext}': exp} if exp is not None else None, label)
+            out[-1]['links'] = links
+        if step != 'filereplace':
+            mk([[f'a.{ext}', bad_c], ['sub/', '']], f'a.{ext}', f'lnk.{ext}', {}, 'alias/symlink-badfmt')
+            out[-1]['links'] = [[f'lnk.{ext}', f'a.{ext}', 'sym']]
         # 2. formatting failure at every item position
         if step != 'filereplace':
             for size in sizes[1:]:
@@ -148,7 +167,7 @@ def count_prims(sc):
     import tempfile
     root = tempfile.mkdtemp(prefix='c15n_')
     try:
-        F.populate(root, sc['files'])
+        F.populate(root, sc['files'], sc.get('links'))
         ctl, outcome = F.run_step(sc, root)
         return [t for t, _ in ctl.events]
     except Exception:   # a mutant may blow up here: fall back to a fixed range
@@ -222,8 +241,19 @@ def random_scenario(rng):
             vin = names[0]
         if out == names[0] and isinstance(vin, str) and vin != names[0]:
             out = ''
+    links = []
+    if isinstance(vin, str) and vin == names[0] and rng.random() < 0.25:
+        kind = rng.choice(['sym', 'hard', 'dotdot', 'other'])
+        if kind in ('sym', 'hard'):
+            links = [[f'zz_link.{ext}', names[0], kind]]
+            out = f'zz_link.{ext}'
+        elif kind == 'dotdot':
+            out = 'sub/../' + names[0] if '/' not in names[0] else names[0].replace('sub/', 'sub/../sub/', 1)
+        elif len(names) > 1:
+            links = [[f'zz_link.{ext}', names[1], 'sym']]
+            out = f'zz_link.{ext}'
     files += [['other.dat', 'do not touch\x00\xff'], ['sub/', ''], ['tmpkeepme1', 'keep']]
-    sc = {'step': step, 'files': files, 'ctx': CTX, 'in': vin, 'out': out, 'expect': expect,
+    sc = {'step': step, 'files': files, 'links': links, 'ctx': CTX, 'in': vin, 'out': out, 'expect': expect,
           'label': 'random/' + ('single' if isinstance(vin, str) and '*' not in vin else 'multi')}
     if step == 'filereplace':
         sc['pairs'] = PAIRS
